@@ -47,7 +47,7 @@ import (
 	"go.uber.org/zap"
 )
 
-func init() { register("c03", runC03) }
+func init() { register("c03", runC03); register("c03seek", runC03Seek) }
 
 // ---- testing.TB outside `go test` ----
 
@@ -327,26 +327,21 @@ func c03StackJSON(items []stackitem.Item) string {
 	return "[" + strings.Join(parts, ",") + "]"
 }
 
-// spec of a range query on a flat dump: keys with the given prefix, cut, in the order and from the start requested
-func c03Range(dump map[string][]byte, prefix, start []byte, backwards bool) (res []c03KV, ambiguous bool) {
+// c03Range is the specification of a range query on the flat storage of one height (the range_query C09 proves for
+// every store of the node, Store/Spec.v; restated in StateRoot/Model.v sm_range): keys with the prefix, prefix cut;
+// forwards: suffix >= start; backwards: suffix <= start or suffix extends start; in the direction asked.
+func c03Range(dump map[string][]byte, prefix, start []byte, backwards bool) (res []c03KV) {
 	ps := append(append([]byte{}, prefix...), start...)
 	for _, kv := range c03Sorted(dump) {
 		if !bytes.HasPrefix(kv.K, prefix) {
 			continue
 		}
-		if len(start) > 0 || backwards {
-			c := bytes.Compare(kv.K, ps)
-			if !backwards && c < 0 {
-				continue
-			}
-			if backwards && len(start) > 0 && c > 0 {
-				if bytes.HasPrefix(kv.K, ps) {
-					// keys extending prefix+start: in range for the disk back-ends and TrieStore, out of range for the
-					// in-memory filters (finding F2, property C09): not judged here
-					ambiguous = true
-				}
-				continue
-			}
+		c := bytes.Compare(kv.K, ps)
+		if !backwards && c < 0 {
+			continue
+		}
+		if backwards && c > 0 && !bytes.HasPrefix(kv.K, ps) {
+			continue
 		}
 		res = append(res, c03KV{kv.K[len(prefix):], kv.V})
 	}
@@ -355,7 +350,134 @@ func c03Range(dump map[string][]byte, prefix, start []byte, backwards bool) (res
 			res[i], res[j] = res[j], res[i]
 		}
 	}
-	return res, ambiguous
+	return res
+}
+
+// c03Query is one range in the key space of the trie (contract id ++ contract key; no storage prefix byte).
+type c03Query struct {
+	prefix, start []byte
+	bw            bool
+}
+
+// c03Queries builds ranges that probe the structure of the trie holding keys: seek prefixes ending above a single leaf,
+// inside the path shared by all items below them, at a branch, at a leaf and beyond; start points that are a proper
+// part of that shared path, equal to it, diverging below / above it, equal to / around / extending items, of every
+// length from 0 to a full key; both directions.
+func c03Queries(keys [][]byte, r *rng, limit int) []c03Query {
+	seen := map[string]bool{}
+	var out []c03Query
+	add := func(p, s []byte) {
+		id := hx(p) + "|" + hx(s)
+		if s == nil {
+			id += "nil"
+		}
+		if seen[id] {
+			return
+		}
+		seen[id] = true
+		out = append(out, c03Query{bytes.Clone(p), bytes.Clone(s), false}, c03Query{bytes.Clone(p), bytes.Clone(s), true})
+	}
+	bump := func(b []byte, i int, d byte) []byte {
+		c := bytes.Clone(b)
+		c[i] += d
+		return c
+	}
+	var prefixes [][]byte
+	pseen := map[string]bool{}
+	addP := func(p []byte) {
+		if !pseen[string(p)] {
+			pseen[string(p)] = true
+			prefixes = append(prefixes, bytes.Clone(p))
+		}
+	}
+	addP([]byte{})
+	for i, k := range keys {
+		if len(keys) > 12 && i%(len(keys)/12+1) != 0 {
+			continue
+		}
+		for l := 1; l <= len(k); l++ {
+			addP(k[:l])
+		}
+		addP(append(bytes.Clone(k), 0x00))
+		if len(k) > 0 {
+			addP(bump(k, len(k)-1, 1))
+		}
+	}
+	for _, p := range prefixes {
+		var items [][]byte
+		for _, k := range keys {
+			if bytes.HasPrefix(k, p) {
+				items = append(items, k[len(p):])
+			}
+		}
+		add(p, nil)
+		if len(items) == 0 {
+			add(p, []byte{0x61})
+			continue
+		}
+		shared := bytes.Clone(items[0])
+		for _, it := range items[1:] {
+			n := 0
+			for n < len(shared) && n < len(it) && shared[n] == it[n] {
+				n++
+			}
+			shared = shared[:n]
+		}
+		for l := 1; l <= len(shared); l++ { // proper parts of the shared path, then the shared path itself
+			add(p, shared[:l])
+		}
+		if len(shared) > 0 {
+			add(p, bump(shared, len(shared)-1, 0xff)) // diverging below
+			add(p, bump(shared, len(shared)-1, 1))    // diverging above
+			add(p, bump(shared, 0, 0xff))
+			add(p, bump(shared, 0, 1))
+			if len(shared) > 1 {
+				add(p, bump(shared[:len(shared)-1], len(shared)-2, 1))
+			}
+		}
+		add(p, append(bytes.Clone(shared), 0x00))
+		add(p, append(bytes.Clone(shared), 0xff))
+		for i, it := range items {
+			if len(items) > 4 && i%(len(items)/4+1) != 0 {
+				continue
+			}
+			for l := 0; l <= len(it); l++ {
+				add(p, it[:l])
+			}
+			add(p, append(bytes.Clone(it), 0x00))
+			if len(it) > 0 {
+				add(p, bump(it, len(it)-1, 0xff))
+				add(p, bump(it, len(it)-1, 1))
+			}
+		}
+	}
+	if np, want := len(out)/2, limit/2; limit > 0 && np > want && want > 0 {
+		// a spread sample; the forward and the backward query of a range stay together
+		step := (np + want - 1) / want
+		var s2 []c03Query
+		for i := r.intn(step); i < np; i += step {
+			s2 = append(s2, out[2*i], out[2*i+1])
+		}
+		out = s2
+	}
+	return out
+}
+
+// c03TrieStoreSeek drives mpt.TrieStore directly through the storage.Store interface.
+func c03TrieStoreSeek(root util.Uint256, mode mpt.TrieMode, st storage.Store, q c03Query) (got []c03KV, panicked string) {
+	pre := append([]byte{byte(storage.STStorage)}, q.prefix...)
+	panicked = catch(func() {
+		var ts storage.Store = mpt.NewTrieStore(root, mode, st)
+		ts.Seek(storage.SeekRange{Prefix: bytes.Clone(pre), Start: bytes.Clone(q.start), Backwards: q.bw}, func(k, v []byte) bool {
+			if len(k) >= len(pre) {
+				got = append(got, c03KV{bytes.Clone(k[len(pre):]), bytes.Clone(v)})
+			} else {
+				got = append(got, c03KV{bytes.Clone(k), bytes.Clone(v)})
+			}
+			return true
+		})
+	})
+	return got, panicked
 }
 
 func c03EqKVs(a, b []c03KV) bool {
@@ -438,6 +560,164 @@ func c03RunBatch(co *caseOut, in c03BatchInput, r *rng) {
 			vals := &c03Vals{m: map[string]int{}}
 			return fmt.Sprintf("CBatch %s %s", c03CoqChanges(vals, changes), c03CoqChanges(vals, impl))
 		}())
+}
+
+// ---- seek case (self-contained): a key set put into a fresh trie, one range through mpt.TrieStore ----
+
+type c03SeekInput struct {
+	Ops    [][2]string `json:"ops"`    // the trie's content: [key hex (contract id ++ key), value hex]
+	Prefix string      `json:"prefix"` // seek prefix in the same key space (the harness adds the storage prefix byte)
+	Start  *string     `json:"start"`  // null: no start point
+	Bw     bool        `json:"bw"`
+	RC     bool        `json:"rc,omitempty"` // nodes stored with the reference-counting suffix (ModeLatest)
+}
+
+func c03RunSeek(co *caseOut, in c03SeekInput) {
+	mode := mpt.ModeAll
+	if in.RC {
+		mode = mpt.ModeLatest
+	}
+	st := storage.NewMemoryStore()
+	dump := map[string][]byte{}
+	var got []c03KV
+	q := c03Query{prefix: unhx(in.Prefix), bw: in.Bw}
+	if in.Start != nil {
+		q.start = unhx(*in.Start)
+		if q.start == nil {
+			q.start = []byte{}
+		}
+	}
+	p := catch(func() {
+		mc := storage.NewMemCachedStore(st)
+		tr := mpt.NewTrie(nil, mode, mc)
+		for _, kv := range in.Ops {
+			k, v := unhx(kv[0]), unhx(kv[1])
+			if len(k) == 0 {
+				continue
+			}
+			if v == nil {
+				v = []byte{}
+			}
+			if err := tr.Put(k, v); err != nil {
+				panic(err)
+			}
+			dump[string(k)] = v
+		}
+		tr.Flush(0)
+		if _, err := mc.Persist(); err != nil {
+			panic(err)
+		}
+		var pp string
+		got, pp = c03TrieStoreSeek(tr.StateRoot(), mode, st, q)
+		if pp != "" {
+			panic(pp)
+		}
+	})
+	if p != "" {
+		co.violation("seek", "TrieStore.Seek over a freshly built trie panics: "+p, in, nil)
+		return
+	}
+	want := c03Range(dump, q.prefix, q.start, q.bw)
+	if !c03EqKVs(got, want) {
+		dir := "forwards"
+		if q.bw {
+			dir = "backwards"
+		}
+		co.violation("seek", "TrieStore.Seek "+dir+" over a freshly built trie differs from the range query on its content", in,
+			map[string]any{"got": c03ShowKVs(got), "want": c03ShowKVs(want)})
+	}
+	// classification of the start point against the path shared by the items below the prefix
+	tag := "nostart"
+	var shared []byte
+	n := 0
+	for k := range dump {
+		if bytes.HasPrefix([]byte(k), q.prefix) {
+			it := []byte(k)[len(q.prefix):]
+			if n == 0 {
+				shared = bytes.Clone(it)
+			} else {
+				m := 0
+				for m < len(shared) && m < len(it) && shared[m] == it[m] {
+					m++
+				}
+				shared = shared[:m]
+			}
+			n++
+		}
+	}
+	switch {
+	case n == 0:
+		tag = "nothing-below-prefix"
+	case len(q.start) == 0:
+	case len(q.start) < len(shared) && bytes.HasPrefix(shared, q.start):
+		tag = "start-proper-part-of-shared-path"
+	case bytes.Equal(shared, q.start):
+		tag = "start-is-shared-path"
+	case bytes.HasPrefix(q.start, shared):
+		tag = "start-inside-subtrie"
+	case bytes.Compare(q.start, shared) < 0:
+		tag = "start-diverges-below"
+	default:
+		tag = "start-diverges-above"
+	}
+	if q.bw {
+		tag = "bwd/" + tag
+	} else {
+		tag = "fwd/" + tag
+	}
+	vals := &c03Vals{m: map[string]int{}}
+	co.add("seek", tag, n > 0 && len(q.start) > 0, in, map[string]any{"n": len(got)},
+		fmt.Sprintf("CSeek %s %s %s %s %s", c03CoqKVs(vals, c03Sorted(dump)), coqBytes(q.prefix), coqBytes(q.start), coqBool(q.bw), c03CoqKVs(vals, got)))
+}
+
+func c03GenSeekSets(r *rng) [][2][]byte {
+	id := pick(r, [][]byte{{1, 0, 0, 0}, {0xfa, 0xff, 0xff, 0xff}, {2, 0, 0, 0}})
+	var bodies [][]byte
+	switch r.intn(5) {
+	case 0: // items sharing a long path below a short prefix: acct/alice, acct/bob, acct/al, acct/
+		for _, t := range []string{"alice", "bob", "al", "", "alicf", "b"} {
+			if r.chance(60) {
+				bodies = append(bodies, []byte("acct/"+t))
+			}
+		}
+	case 1: // a single item
+		bodies = append(bodies, pick(r, [][]byte{[]byte("acct/alice"), {0x0a}, {0x61, 0x62, 0x63}, {}}))
+	case 2: // keys that are prefixes of one another
+		k := []byte{}
+		for i, m := 0, 2+r.intn(4); i < m; i++ {
+			k = append(k, pick(r, []byte{0x61, 0x62, 0x00, 0xff}))
+			if r.chance(70) {
+				bodies = append(bodies, bytes.Clone(k))
+			}
+		}
+		if r.chance(50) {
+			bodies = append(bodies, []byte{})
+		}
+	case 3: // a branch right below the contract id, with shared paths further down
+		for i, m := 0, 2+r.intn(4); i < m; i++ {
+			b := []byte{pick(r, []byte{0x10, 0x11, 0x61, 0xf0})}
+			b = append(b, pick(r, [][]byte{{}, {0x62, 0x63}, {0x62, 0x64}, {0x00}})...)
+			bodies = append(bodies, b)
+		}
+	default: // two contracts: the path below a prefix shorter than the id
+		bodies = append(bodies, []byte("k1"), []byte("k2"))
+	}
+	var out [][2][]byte
+	seen := map[string]bool{}
+	for i, b := range bodies {
+		k := append(bytes.Clone(id), b...)
+		if i%2 == 1 && r.chance(20) {
+			k[0] ^= 0x02 // another contract
+		}
+		if !seen[string(k)] {
+			seen[string(k)] = true
+			out = append(out, [2][]byte{k, pick(r, [][]byte{{1}, {2}, []byte("v"), {}})})
+		}
+	}
+	if len(out) == 0 {
+		out = append(out, [2][]byte{append(bytes.Clone(id), 0x61), {1}})
+	}
+	return out
 }
 
 // ---- chain case ----
@@ -846,6 +1126,7 @@ func c03RunChain(co *caseOut, in c03Input, r *rng) {
 	}
 
 	// ---- every height against its root ----
+	bc.VerifPersist() // the persistent store now holds every node (TrieStore is also driven directly over it)
 	H := bc.BlockHeight()
 	mtb := bc.GetMaxTraceableBlocks()
 	checks := 0
@@ -1167,6 +1448,34 @@ func c03RunChain(co *caseOut, in c03Input, r *rng) {
 				break
 			}
 		}
+		// (3b) mpt.TrieStore driven directly through the storage.Store interface over the persistent store: every range
+		// has one answer on the storage of height h (C09), the trie at root_h must give it
+		var dkeys [][]byte
+		for _, kv := range dumpS {
+			dkeys = append(dkeys, kv.K)
+		}
+		queries := c03Queries(dkeys, r, 140)
+		readMode := mpt.ModeAll
+		if in.Cfg == "latest" || in.Cfg == "gc" {
+			readMode = mpt.ModeLatest
+		}
+		for _, q := range queries {
+			want := c03Range(rec.dump, q.prefix, q.start, q.bw)
+			gotq, p := c03TrieStoreSeek(rec.root, readMode, c.bottom, q)
+			if p != "" {
+				viol("TrieStore.Seek panics: "+p, at(map[string]any{"prefix": hx(q.prefix), "start": hx(q.start), "bw": q.bw}))
+				break
+			}
+			checks++
+			if !c03EqKVs(gotq, want) {
+				dir := "forwards"
+				if q.bw {
+					dir = "backwards"
+				}
+				viol("TrieStore.Seek "+dir+" (driven directly) differs from the range query on the storage of that height",
+					at(map[string]any{"prefix": hx(q.prefix), "start": hx(q.start), "start_nil": q.start == nil, "bw": q.bw, "got": c03ShowKVs(gotq), "want": c03ShowKVs(want)}))
+			}
+		}
 		// (4) the TrieStore-backed historic DAO and historic invocations
 		if h+1 > H+1 || h+1 < 1 {
 			continue
@@ -1184,79 +1493,34 @@ func c03RunChain(co *caseOut, in c03Input, r *rng) {
 			viol("GetTestHistoricVM succeeds although only the latest state is kept", at(map[string]any{}))
 			continue
 		}
-		type sq struct {
-			id            int32
-			prefix, start []byte
-			bw            bool
-		}
-		var sqs []sq
-		for i, k := range present {
-			id := int32(binary.LittleEndian.Uint32(k[:4]))
-			if id <= 0 && i%5 != 0 {
-				continue
+		for _, q := range queries {
+			if len(q.prefix) < 4 {
+				continue // the DAO always seeks below a contract id
 			}
-			body := k[4:]
-			for _, pl := range []int{0, 1, len(body)} {
-				if pl > len(body) {
-					continue
-				}
-				for _, bw := range []bool{false, true} {
-					sqs = append(sqs, sq{id, body[:pl], nil, bw})
-					if pl < len(body) {
-						sqs = append(sqs, sq{id, body[:pl], body[pl:], bw})
-						s := bytes.Clone(body[pl:])
-						s[len(s)-1] ^= 0x01
-						sqs = append(sqs, sq{id, body[:pl], s, bw})
-						sqs = append(sqs, sq{id, body[:pl], append(bytes.Clone(body[pl:]), 0x05), bw})
-					}
-				}
-			}
-		}
-		if len(sqs) > 120 {
-			step := len(sqs)/120 + 1
-			var s2 []sq
-			for i := 0; i < len(sqs); i += step {
-				s2 = append(s2, sqs[i])
-			}
-			sqs = s2
-		}
-		seenF3 := false
-		for _, q := range sqs {
-			pre := make([]byte, 4)
-			binary.LittleEndian.PutUint32(pre, uint32(q.id))
-			want, amb := c03Range(rec.dump, append(pre, q.prefix...), q.start, q.bw)
-			if amb {
-				continue
-			}
+			id := int32(binary.LittleEndian.Uint32(q.prefix[:4]))
+			want := c03Range(rec.dump, q.prefix, q.start, q.bw)
 			var gotq []c03KV
 			if p := catch(func() {
-				ic.DAO.Seek(q.id, storage.SeekRange{Prefix: bytes.Clone(q.prefix), Start: bytes.Clone(q.start), Backwards: q.bw}, func(k, v []byte) bool {
+				ic.DAO.Seek(id, storage.SeekRange{Prefix: bytes.Clone(q.prefix[4:]), Start: bytes.Clone(q.start), Backwards: q.bw}, func(k, v []byte) bool {
 					gotq = append(gotq, c03KV{bytes.Clone(k), bytes.Clone(v)})
 					return true
 				})
 			}); p != "" {
-				viol("historic DAO Seek panics: "+p, at(map[string]any{"id": q.id, "prefix": hx(q.prefix), "start": hx(q.start), "bw": q.bw}))
+				viol("historic DAO Seek panics: "+p, at(map[string]any{"id": id, "prefix": hx(q.prefix[4:]), "start": hx(q.start), "bw": q.bw}))
 				break
 			}
 			checks++
 			if !c03EqKVs(gotq, want) {
-				if q.bw && len(q.start) > 0 {
-					if seenF3 {
-						continue
-					}
-					seenF3 = true
-					viol("TrieStore-backed Seek backwards with a start point differs from the range query on the recorded storage",
-						at(map[string]any{"id": q.id, "prefix": hx(q.prefix), "start": hx(q.start), "bw": true, "got": c03ShowKVs(gotq), "want": c03ShowKVs(want)}))
-					continue
+				dir := "forwards"
+				if q.bw {
+					dir = "backwards"
 				}
-				if !q.bw && len(q.start) > 0 {
-					viol("TrieStore-backed Seek forwards with a start point differs from the range query on the recorded storage",
-						at(map[string]any{"id": q.id, "prefix": hx(q.prefix), "start": hx(q.start), "bw": false, "got": c03ShowKVs(gotq), "want": c03ShowKVs(want)}))
-					continue
+				with := "without a start point"
+				if len(q.start) > 0 {
+					with = "with a start point"
 				}
-				viol("TrieStore-backed Seek without a start point differs from the range query on the recorded storage",
-					at(map[string]any{"id": q.id, "prefix": hx(q.prefix), "start": hx(q.start), "bw": q.bw, "got": c03ShowKVs(gotq), "want": c03ShowKVs(want)}))
-				break
+				viol("TrieStore-backed Seek "+dir+" "+with+" differs from the range query on the recorded storage",
+					at(map[string]any{"id": id, "prefix": hx(q.prefix[4:]), "start": hx(q.start), "bw": q.bw, "got": c03ShowKVs(gotq), "want": c03ShowKVs(want)}))
 			}
 		}
 		ic.Finalize()
@@ -1290,6 +1554,12 @@ func c03GenChain(r *rng, cfg string) c03Input {
 	in := c03Input{Cfg: cfg, NoKnown: true}
 	// contract-relative keys: prefixes of one another, shared prefixes, the empty key
 	stems := [][]byte{{}, {0x61}, {0x61, 0x62}, {0x61, 0x62, 0x63}, {0x61, 0x00}, {0x62}, {0xff}, {0x61, 0x62, 0x63, 0x64, 0x65}}
+	if r.chance(40) {
+		// every key of the contracts shares a long path below a short prefix (acct/alice, acct/bob, acct/ ...)
+		for i := range stems {
+			stems[i] = append([]byte("acct/"), stems[i]...)
+		}
+	}
 	var pool [][]byte
 	for len(pool) < 10 {
 		k := append([]byte{}, pick(r, stems)...)
@@ -1401,7 +1671,8 @@ func runC03(args []string) error {
 		"block histories (7-20 blocks, 1-4 transactions each) on a single-validator neotest chain in four configurations (full history, full history with "+
 			"StateRootInHeader, KeepOnlyLatestState, RemoveUntraceableBlocks with MaxTraceableBlocks 6 and GC): raw-NeoVM storage contract put/delete over keys that are "+
 			"prefixes of one another, overwrite with the equal value, delete-and-recreate, ABORTed transactions, contract destruction, GAS/NEO transfers, role designation; "+
-			"every retained height compared key for key; one 'batch' case per block (the block's change set through the real MapToMPTBatch); a chain case is "+
+			"every retained height compared key for key, every range (structured prefixes/start points, both directions) through mpt.TrieStore directly and through the historic DAO; "+
+			"'seek' cases: small structured key sets (shared long paths, single items, keys that are prefixes of one another) in a fresh trie, one range each; one 'batch' case per block (the block's change set through the real MapToMPTBatch); a chain case is "+
 			"non-trivial when it has transactions and more than one block, a batch case when it has more than one change; distinct by Coq term")
 	co.shard = 24
 	r := newRng(cf.seed)
@@ -1419,6 +1690,12 @@ func runC03(args []string) error {
 				return err
 			}
 			switch x.Kind {
+			case "seek":
+				var in c03SeekInput
+				if err := json.Unmarshal(x.Input, &in); err != nil {
+					return err
+				}
+				c03RunSeek(co, in)
 			case "batch":
 				var in c03BatchInput
 				if err := json.Unmarshal(x.Input, &in); err != nil {
@@ -1438,6 +1715,55 @@ func runC03(args []string) error {
 	cfgs := []string{"full", "srh", "gc", "full", "latest", "gc"}
 	for i := 0; i < cf.n; i++ {
 		c03RunChain(co, c03GenChain(r, cfgs[i%len(cfgs)]), r)
+	}
+	return co.finish()
+}
+
+// runC03Seek: the self-contained range cases (kind "seek"): n structured key sets, up to 24 ranges each.
+func runC03Seek(args []string) error {
+	cf, fs := parseCommon("c03seek", args)
+	fs.Parse(args)
+	co := newCaseOut(cf.out, "Harness.C03", "N",
+		"small structured key sets (items sharing a long path below a short prefix, a single item, keys that are prefixes of one another, a branch below "+
+			"the contract id, two contracts) put into a fresh trie (ModeAll and ModeLatest node format), one range each through mpt.TrieStore.Seek driven "+
+			"directly: seek prefixes ending above a single leaf / inside the shared path / at a branch / at a leaf / beyond, start points that are a proper "+
+			"part of the shared path, equal to it, diverging below and above it, equal to / around / extending items, of every length, both directions; "+
+			"non-trivial when something lies below the prefix and a start point is given; distinct by Coq term")
+	co.shard = 300
+	if cf.replay != "" {
+		cases, err := readReplay(cf.replay)
+		if err != nil {
+			return err
+		}
+		for _, c := range cases {
+			var x struct {
+				Kind  string       `json:"kind"`
+				Input c03SeekInput `json:"input"`
+			}
+			if err := json.Unmarshal(c, &x); err != nil {
+				return err
+			}
+			c03RunSeek(co, x.Input)
+		}
+		return co.finish()
+	}
+	r := newRng(cf.seed)
+	for i := 0; i < cf.n; i++ {
+		set := c03GenSeekSets(r)
+		var keys [][]byte
+		var ops [][2]string
+		for _, kv := range set {
+			keys = append(keys, kv[0])
+			ops = append(ops, [2]string{hx(kv[0]), hx(kv[1])})
+		}
+		for _, q := range c03Queries(keys, r, 24) {
+			in := c03SeekInput{Ops: ops, Prefix: hx(q.prefix), Bw: q.bw, RC: i%2 == 1}
+			if q.start != nil {
+				st := hx(q.start)
+				in.Start = &st
+			}
+			c03RunSeek(co, in)
+		}
 	}
 	return co.finish()
 }
